@@ -457,31 +457,43 @@ func (w *c10World) judge(c *cUpdate, how string) (sig, what string, reached bool
 	if err == nil && acc == nil {
 		return "Update.Verify-returns-no-accumulator", how, true
 	}
-	// ---- Witness.Update, witness positioned just before the window (or at 0)
-	pos := w.a - 1
+	// ---- Witness.Update, witness positioned just before the window (or at 0), and at the
+	// window's last index (the "same accumulator index" path)
+	for _, pos := range []int{w.a - 1, w.b} {
+		if s, wh := w.judgeWitness(recv, authentic, how, pos); s != "" {
+			return s, wh, true
+		}
+	}
+	return "", "", true
+}
+
+func (w *c10World) judgeWitness(recv *Update, authentic bool, how string, pos int) (sig, what string) {
+	pk := w.ch.kp.Pk
+	var err error
 	if pos < 0 {
 		pos = 0
 	}
+	how = fmt.Sprintf("%s, witness at index %d", how, pos)
 	wit := w.ch.witnessAt(pos)
 	wit.SignedAccumulator.Accumulator = nil // make the witness verify its own accumulator too
 	if _, err := wit.SignedAccumulator.UnmarshalVerify(pk); err != nil {
-		return "control:fresh-witness-accumulator-rejected", err.Error(), true
+		return "control:fresh-witness-accumulator-rejected", err.Error()
 	}
 	snapU, snapE, snapPtr, snapS := new(big.Int).Set(wit.U), new(big.Int).Set(wit.E), wit.SignedAccumulator, *wit.SignedAccumulator
 	u2 := cloneUpdate(recv)
 	if ps := vfh.Guard(func() { err = wit.Update(pk, u2) }); ps != "" {
-		return ps + ":Witness.Update", how, true
+		return ps + ":Witness.Update", how
 	}
 	unchanged := wit.U.Cmp(snapU) == 0 && wit.E.Cmp(snapE) == 0 && wit.SignedAccumulator == snapPtr &&
 		bytes.Equal(wit.SignedAccumulator.Data, snapS.Data) && wit.SignedAccumulator.PKCounter == snapS.PKCounter && wit.SignedAccumulator.Accumulator == snapS.Accumulator
 	if !authentic {
 		if err == nil {
-			return "unauthentic-update-accepted:Witness.Update", how, true
+			return "unauthentic-update-accepted:Witness.Update", how
 		}
 		if !unchanged {
-			return "rejected-update-changes-witness", how, true
+			return "rejected-update-changes-witness", how
 		}
-		return "", "", true
+		return "", ""
 	}
 	// authentic: outcome by position (as in C09's model); the witness is not revoked
 	racc, _ := refAuthentic(pk, recv)
@@ -492,28 +504,28 @@ func (w *c10World) judge(c *cUpdate, how string) (sig, what string, reached bool
 	switch {
 	case racc.Index <= uint64(pos) || len(recv.Events) == 0:
 		if err != nil {
-			return "authentic-update-rejected:Witness.Update(noop)", fmt.Sprintf("%s: %v", how, err), true
+			return "authentic-update-rejected:Witness.Update(noop)", fmt.Sprintf("%s: %v", how, err)
 		}
 	case first > uint64(pos)+1:
 		if err == nil {
-			return "gap-update-accepted:Witness.Update", how, true
+			return "gap-update-accepted:Witness.Update", how
 		}
 		if !unchanged {
-			return "rejected-update-changes-witness", how, true
+			return "rejected-update-changes-witness", how
 		}
 	default:
 		if err != nil {
-			return "authentic-update-rejected:Witness.Update", fmt.Sprintf("%s: %v", how, err), true
+			return "authentic-update-rejected:Witness.Update", fmt.Sprintf("%s: %v", how, err)
 		}
 		if wit.SignedAccumulator.Accumulator.Index != racc.Index {
-			return "witness-not-advanced-to-signed-index", how, true
+			return "witness-not-advanced-to-signed-index", how
 		}
 		nu := new(big.Int).SetBytes(racc.Nu)
 		if new(big.Int).Exp(wit.U, wit.E, pk.N).Cmp(nu) != 0 {
-			return "witness-invalid-after-authentic-update", how, true
+			return "witness-invalid-after-authentic-update", how
 		}
 	}
-	return "", "", true
+	return "", ""
 }
 
 func newC10World(seed, n int) *c10World {
